@@ -490,10 +490,10 @@ class Interp:
                     elif not self.is_pure(sub):
                         return False
                 for ext in externals:
-                    if ext[0] == 'construct':
+                    if ext[0] in ('construct', 'callable'):
                         continue
                     name = ext[-1].split('.')[-1]
-                    if name not in PURE_EXTERNALS:
+                    if name not in PURE_EXTERNALS and not _is_exception_name(name):
                         return False
             stack.extend(ast.iter_child_nodes(node))
         return True
@@ -1555,10 +1555,10 @@ class Interp:
             else:
                 pure &= self.is_pure(callee)
         for ext in externals:
-            if ext[0] == 'construct':
+            if ext[0] in ('construct', 'callable'):
                 continue
             name = ext[-1].split('.')[-1]
-            if name not in PURE_EXTERNALS:
+            if name not in PURE_EXTERNALS and not _is_exception_name(name):
                 pure = False
             key = ext[:3] if ext[0] == 'extmeth' else (ext[0], name)
             cls = EXTERNAL_RAISES.get(key)
@@ -2197,6 +2197,12 @@ def _target_subexprs(target) -> list:
     if isinstance(target, ast.Starred):
         return _target_subexprs(target.value)
     return []
+
+
+def _is_exception_name(name: str) -> bool:
+    import builtins
+    obj = getattr(builtins, name, None)
+    return isinstance(obj, type) and issubclass(obj, BaseException)
 
 
 def _is_fresh_empty(value) -> bool:
